@@ -1,5 +1,6 @@
 """C01 -- every instruction is encoded exactly as the 6502 ISA prescribes."""
 import json
+import os
 import random
 
 import common
@@ -80,6 +81,16 @@ def run(chk):
     def asm(text):
         return probe.call({"cmd": "asm", "files": {"main.asm": text}, "merge": False})
 
+    # ---- 0. corpus: minimised regressions run first (each file: a program that must be REJECTED)
+    cdir = os.path.join(common.ROOT, "corpus", "C01")
+    for fn in sorted(os.listdir(cdir)) if os.path.isdir(cdir) else []:
+        if fn.endswith(".asm"):
+            text = open(os.path.join(cdir, fn)).read()
+            io = impl_outcome(asm(text))
+            chk.count(1, 1)
+            if io[0] == "ok":
+                chk.oracle_failure(None, "corpus/C01/%s must be rejected but assembles to %s" % (fn, io[1]), {"text": text, "impl": io, "spec": ("rejected",)})
+
     # ---- 1. all mnemonics x all forms x value classes
     seen_texts = set()
     for mi, mn in enumerate(mns):
@@ -116,7 +127,7 @@ def run(chk):
                         want = ("rejected",)
                     else:
                         want = ("rejected",)
-                    in_domain = v > 0
+                    in_domain = v >= 0   # address 0 is a target like any other (F-C01b repaired; regression: corpus/C01/branch_to_zero.asm)
                 else:
                     spec = m.get("spec")
                     want = ("ok", spec) if spec is not None else ("rejected",)
@@ -126,10 +137,6 @@ def run(chk):
                     if not good:
                         chk.oracle_failure(None, "%r assembles to %s, the ISA prescribes %s" % (text, io, want),
                                            {"text": text, "impl": io, "spec": want})
-                elif is_branch and form == "FAbs" and v == 0 and io[0] == "ok":
-                    chk.oracle_failure("Known_branch_target_zero",
-                                       "%r at $%04X yields %s (distance out of range, must be rejected)" % (text, DEFAULT_PC, io),
-                                       {"text": text, "impl": io})
 
     # ---- 1b. operand shapes OUTSIDE the form table: nothing the ISA defines looks like this, so every one must be rejected
     #          (an error, no bytes), for every mnemonic, with and without blanks, alone and between two other statements
